@@ -55,6 +55,9 @@ func (o *Obligation) Query(seed int) string {
 		b.WriteByte('\n')
 	}
 	for _, e := range o.Epilogue {
+		if o.ExpectSat && strings.Contains(e, "(forall ") {
+			continue // reachability witnesses do not need the loop frames
+		}
 		b.WriteString(e)
 		b.WriteByte('\n')
 	}
